@@ -273,6 +273,51 @@ func nonFinal(pl *plView) []int64 {
 	return out
 }
 
+// sideHolds evaluates, with this command's own arithmetic, the side condition c19_side of the
+// regularity theorems for a constant-duration configuration: with adj = the adjusted part
+// duration (the first PartMinDuration + k*5 ms below 5 s that is at least one sample long and
+// more than 85 % of itself rounded up to whole samples), no sample count m has a non-integer
+// duration m*T/rate s whose floor is adj-1 ns. The verdict only chooses the signature suffix
+// of an oracle failure (side-fails = the irregularity the *_refuted theorems predict,
+// side-holds = the theorems promise regular parts); Coq re-computes it (Tie.PartDurTie.CSide,
+// PartDurArith.sideb, proved equivalent to c19_side) on every run.
+func sideHolds(rate, T, pm int64) bool {
+	sd := T * 1000000000 / rate
+	if sd <= 0 {
+		return true
+	}
+	adj := pm
+	for ; adj < 5000000000; adj += 5000000 {
+		if sd <= adj {
+			n := (adj + sd - 1) / sd
+			if 100*adj > 85*n*sd {
+				break
+			}
+		}
+	}
+	if adj < 1 {
+		return true
+	}
+	num := T * 1000000000 // duration of m samples = m*num/rate ns
+	m := ((adj-1)*rate + num - 1) / num
+	if m < 0 {
+		m = 0
+	}
+	for ; m*num/rate <= adj-1; m++ {
+		if (m*num)%rate != 0 && m*num/rate == adj-1 {
+			return false
+		}
+	}
+	return true
+}
+
+func sideName(b bool) string {
+	if b {
+		return "side-holds"
+	}
+	return "side-fails"
+}
+
 type finding struct {
 	check string
 	what  string
@@ -625,6 +670,11 @@ func main() {
 			}
 			errs = append(errs, fmt.Sprintf("muxer case %d: unexpected OnEncodeError %q (input %s)", id, e, input))
 		}
+		side := true
+		if c.Constant {
+			side = sideHolds(c.Rate, c.T, c.effPartMin())
+			dist["c19_side:"+sideName(side)]++
+		}
 		for _, f := range oracle(c, obs) {
 			// minimise: cut the writes after the failing one
 			mc := *c
@@ -634,14 +684,19 @@ func main() {
 			}
 			mi, _ := json.Marshal(map[string]interface{}{"mux": &mc})
 			failures = append(failures, failure{
-				Signature: "C19:" + f.check + ":partmin-" + c.PMClass,
-				What: fmt.Sprintf("%s (leading %s at %d Hz, constant sample duration %d ticks, PartMinDuration %d ns, SegmentMinDuration %d ns, first dts %d)",
-					f.what, c.Kind, c.Rate, c.T, c.effPartMin(), c.effSegMin(), c.D0),
+				Signature: "C19:" + f.check + ":" + sideName(side),
+				What: fmt.Sprintf("%s (leading %s at %d Hz, constant sample duration %d ticks, PartMinDuration %d ns [%s, c19_side %s], SegmentMinDuration %d ns, first dts %d)",
+					f.what, c.Kind, c.Rate, c.T, c.effPartMin(), c.PMClass, map[bool]string{true: "holds", false: "fails"}[side], c.effSegMin(), c.D0),
 				Input: mi,
 			})
-			dist["oracle:"+f.check+":"+c.PMClass]++
+			dist["oracle:"+f.check+":"+sideName(side)]++
 		}
 		sw.add(c.coq(obs), 120, input)
+		if c.Constant {
+			sw.add(fmt.Sprintf("CSide {| clockRate := %s; partMinDuration := %s; segmentMinDuration := %s; segmentCount := %s |} %s %s",
+				coqfmt.Z(c.Rate), coqfmt.Z(c.effPartMin()), coqfmt.Z(c.effSegMin()), coqfmt.Z(c.effSegCount()),
+				coqfmt.Z(c.T), coqfmt.Bool(side)), 120, input)
+		}
 
 		h := sha256.Sum256(input)
 		hs := hex.EncodeToString(h[:8])
